@@ -221,6 +221,22 @@ class SymList(ModelObj):
     def do_copy(self, I):
         return SymList(self.n, self.f, elem_sort=self.elem_sort)
 
+    def do_remove(self, I, x):
+        bound = None
+        for k in range(0, 4):
+            if I.ctx.entails(self.n <= k):
+                bound = k
+                break
+        if bound is None:
+            raise Unsupported("SymList.remove on a list of unbounded length")
+        for j in range(bound):
+            old, n0 = self.f, self.n
+            if I.ctx.branch(z3.And(n0 > j, I.eq_formula(old(z3.IntVal(j)), x)), f"list.remove matches index {j}"):
+                self.f = lambda i, j=j, old=old: ite_val(i < j, old(i), old(i + 1))
+                self.n = z3.simplify(n0 - 1)
+                return None
+        raise PyRaise(BuiltinExc("ValueError", ("list.remove(x): x not in list",)))
+
     def m_iter(self, I):
         return self
 
